@@ -547,9 +547,197 @@ def _pool_book_enum(rng, big):
     return cases
 
 
+# --- BEGIN extend-c11b: the packet step (frames -> IpFragId / offset / flag / payload) -----------------------
+def _be16(v):
+    return bytes([(v >> 8) & 255, v & 255])
+
+
+def _pk_frame(rng, s, fo, mf, data, ent="eth", second_frag=False):
+    """one frame of stream s (dict of _streams) carrying the fragment (fo, mf, data); every field that is NOT part of
+    IpFragId is drawn afresh: MAC addresses, TPID / PCP / DEI of the VLAN tags, IPv4 IHL + options, DSCP/ECN, DF, TTL,
+    checksum, optional AH in front of the payload; IPv6 traffic class, flow label, hop limit, hop-by-hop / destination
+    options / routing headers in front of the fragment header, reserved bits of the fragment header, destination options
+    or AH behind it, optionally a SECOND fragment header (other identification) behind the first"""
+    if s["v"] == 4:
+        inner = data
+        proto = s["proto"]
+        if rng.chance(1, 8):
+            icv = rng.bytes(4 * rng.range(1, 3))
+            inner = bytes([s["proto"], len(icv) // 4 + 1, 0, 0]) + rng.bytes(8) + icv + data
+            proto = 51
+        ihl = rng.choice([5, 5, 5, 6, 8, 15])
+        opts = rng.bytes(ihl * 4 - 20)
+        flags = (rng.below(2) << 14) | ((1 if mf else 0) << 13) | fo
+        ip = (bytes([0x40 | ihl, rng.below(256)]) + _be16(ihl * 4 + len(inner)) + _be16(s["ident"] & 0xFFFF) + _be16(flags)
+              + bytes([rng.below(256), proto]) + rng.bytes(2) + s["src"] + s["dst"] + opts + inner)
+        if rng.chance(1, 6):
+            ip += rng.bytes(rng.range(1, 6))          # padding behind the total length
+        et = 0x0800
+    else:
+        chain = []      # (kind, bytes without next header octet)
+        if rng.chance(1, 3):
+            chain.append((0, None))
+        for _ in range(rng.choice([0, 0, 1, 2])):
+            chain.append((rng.choice([60, 43]), None))
+        chain.append((44, None))
+        if second_frag:
+            chain.append((44, "second"))
+        if rng.chance(1, 5):
+            chain.append((rng.choice([60, 51]), None))
+        out = data
+        nxt = s["proto"]
+        for kind, what in reversed(chain):
+            if kind == 44:
+                if what == "second":
+                    hdr = bytes([nxt, rng.below(256)]) + _be16((rng.below(8192) << 3) | rng.below(8)) + rng.bytes(4)
+                else:
+                    hdr = (bytes([nxt, rng.below(256)]) + _be16((fo << 3) | (rng.below(4) << 1) | (1 if mf else 0))
+                           + bytes([(s["ident"] >> 24) & 255, (s["ident"] >> 16) & 255, (s["ident"] >> 8) & 255, s["ident"] & 255]))
+            elif kind == 51:
+                icv = rng.bytes(4 * rng.range(1, 3))
+                hdr = bytes([nxt, len(icv) // 4 + 1, 0, 0]) + rng.bytes(8) + icv
+            else:
+                units = rng.choice([0, 0, 1, 2])
+                hdr = bytes([nxt, units]) + rng.bytes((units + 1) * 8 - 2)
+            out = hdr + out
+            nxt = kind
+        ip = (bytes([0x60 | rng.below(16)]) + rng.bytes(3) + _be16(len(out)) + bytes([nxt, rng.below(256)])
+              + s["src"] + s["dst"] + out)
+        et = 0x86DD
+    if ent == "ip":
+        return ip
+    body = ip
+    for vid in reversed(s["vl"]):
+        body = _be16((rng.below(16) << 12) | vid) + _be16(et) + body
+        et = rng.choice([0x8100, 0x88A8, 0x9100])
+    return rng.bytes(12) + _be16(et) + body
+
+
+def _pk_streams(rng, n):
+    ss = _streams(rng, n)
+    for s in ss:
+        if s["v"] == 6:
+            s["ident"] = (s["ident"] * 65537 + s["chan"]) & 0xFFFFFFFF if rng.chance(1, 2) else s["ident"]
+    # the changes above may have made two ids equal / unequal in another way: recompute distinctness by label
+    return ss
+
+
+def _pk_label(labels, s):
+    key = (s["v"], tuple(s["vl"]), s["src"], s["dst"], s["ident"] & (0xFFFF if s["v"] == 4 else 0xFFFFFFFF), s["proto"], s["chan"])
+    if key not in labels:
+        labels[key] = len(labels)
+    return labels[key]
+
+
+def _pk_cases(rng, n, noise):
+    import pktgen
+    cases = []
+    for _ in range(n):
+        ss = _pk_streams(rng, rng.range(2, 4))
+        labels = {}
+        queue = []       # per stream: list of fragments still to deliver
+        for s in ss:
+            k = rng.range(2, 3)
+            P = rng.bytes(8 * (k - 1) + rng.range(1, 9))
+            fr = _cut(P, [1] * (k - 1))
+            # random order inside the stream
+            order = list(fr)
+            for i in range(len(order) - 1, 0, -1):
+                j = rng.below(i + 1)
+                order[i], order[j] = order[j], order[i]
+            queue.append(order)
+        ops = []
+        ts = 0
+        live = [i for i in range(len(ss))]
+        while live:
+            ts += 1
+            r = rng.below(12)
+            if r == 0:
+                ops.append("r")
+                continue
+            if r == 1:
+                # an unfragmented packet of one of the streams: passes through, never changes a reassembly
+                s = rng.choice(ss)
+                ent = "ip" if (not s["vl"] and rng.chance(1, 3)) else "eth"
+                ops.append("k:u:%s:%d:%d:%s" % (ent, s["chan"], ts, hx(_pk_frame(rng, s, 0, False, rng.bytes(rng.range(0, 12)), ent))))
+                continue
+            if r == 2 and noise:
+                ent, data, _ = pktgen.gen_packet(rng)
+                if len(data) <= 400:
+                    ops.append("k:x:%s:%d:%d:%s" % (ent.replace(":", ""), rng.below(3), ts, hx(data)))
+                continue
+            i = rng.choice(live)
+            s = ss[i]
+            fo, mf, data = queue[i].pop()
+            if not queue[i]:
+                live.remove(i)
+            ent = "ip" if (not s["vl"] and rng.chance(1, 3)) else "eth"
+            second = s["v"] == 6 and rng.chance(1, 10)
+            ops.append("k:%d:%s:%d:%d:%s" % (_pk_label(labels, s), ent, s["chan"], ts, hx(_pk_frame(rng, s, fo, mf, data, ent, second))))
+        cases.append("pk " + " ".join(ops))
+    return cases
+
+
+def _pk_pair_enum(rng):
+    """every key component on its own: a first fragment of a base datagram, then a first fragment that differs in exactly
+    that component (two open reassemblies) resp. in non-key fields only (one), IPv4 and IPv6, 0-3 VLAN tags"""
+    cases = []
+    for v in (4, 6):
+        for nv in range(4):
+            alen = 4 if v == 4 else 16
+            base = {"v": v, "vl": [rng.below(4096) for _ in range(nv)], "src": rng.bytes(alen), "dst": rng.bytes(alen),
+                    "ident": rng.below(65536), "proto": 17, "chan": 1}
+            variants = [("same", dict(base))]
+            for comp in ("ident", "src", "dst", "proto", "chan", "swap", "ver") + tuple("vl%d" % i for i in range(nv)) + ("vl+", "vl-"):
+                s = dict(base); s["vl"] = list(base["vl"])
+                if comp == "ident":
+                    s["ident"] ^= 1 << rng.below(16)
+                elif comp in ("src", "dst"):
+                    b = bytearray(s[comp]); b[rng.below(alen)] ^= 1 << rng.below(8); s[comp] = bytes(b)
+                elif comp == "proto":
+                    s["proto"] = 6
+                elif comp == "chan":
+                    s["chan"] = 2
+                elif comp == "swap":
+                    s["src"], s["dst"] = s["dst"], s["src"]
+                elif comp == "ver":
+                    if v == 4:
+                        s["v"] = 6; s["src"] = s["src"] + bytes(12); s["dst"] = s["dst"] + bytes(12)
+                    else:
+                        s["v"] = 4; s["src"] = s["src"][:4]; s["dst"] = s["dst"][:4]
+                elif comp == "vl+":
+                    if nv == 3:
+                        continue
+                    s["vl"].append(rng.below(4096))
+                elif comp == "vl-":
+                    if nv == 0:
+                        continue
+                    s["vl"].pop()
+                else:
+                    s["vl"][int(comp[2:])] ^= 1 << rng.below(12)
+                variants.append((comp, s))
+            for comp, s in variants:
+                labels = {}
+                P = rng.bytes(11)
+                Q = rng.bytes(13)
+                f1 = "k:%d:eth:%d:1:%s" % (_pk_label(labels, base), base["chan"], hx(_pk_frame(rng, base, 0, True, P[:8])))
+                f2 = "k:%d:eth:%d:2:%s" % (_pk_label(labels, s), s["chan"], hx(_pk_frame(rng, s, 0, True, Q[:8])))
+                f3 = "k:%d:eth:%d:3:%s" % (_pk_label(labels, base), base["chan"], hx(_pk_frame(rng, base, 1, False, P[8:])))
+                f4 = "k:%d:eth:%d:4:%s" % (_pk_label(labels, s), s["chan"], hx(_pk_frame(rng, s, 1, False, Q[8:])))
+                cases.append("pk %s %s %s %s" % (f1, f2, f3, f4))
+    return cases
+# --- END extend-c11b (generators) ------------------------------------------------------------------------------
+
+
 def gen_cases(rng, tier):
     big = tier == "thorough"
     cases = []
+    import os
+    if os.environ.get("C11_ONLY") == "pk":
+        # debugging knob (mutant runs): only the frame histories of the packet step
+        for _ in range(20 if big else 3):
+            cases += _pk_pair_enum(rng)
+        return cases + _pk_cases(rng, 60000 if big else 2500, True)
     cases += _perm_cases(rng, 6 if big else 4, big)
     cases += _soup_cases(rng, 200000 if big else 6000)
     cases += _late_end_enum()
@@ -560,6 +748,10 @@ def gen_cases(rng, tier):
     cases += _pool_big(rng)
     cases += _pool_book_enum(rng, big)
     cases += _pool_book_cases(rng, 100000 if big else 3000, 4)
+    # extend-c11b: the packet step
+    for _ in range(20 if big else 3):
+        cases += _pk_pair_enum(rng)
+    cases += _pk_cases(rng, 60000 if big else 2500, True)
     return cases
 
 
@@ -660,13 +852,75 @@ def _fields(step):
     return parts[0], dict(p.split("=", 1) for p in parts[1:] if "=" in p)
 
 
+# --- BEGIN extend-c11b: comparison of the packet step ----------------------------------------------------------
+def _pk_parse(step):
+    """'sl key=K ans stats=..' -> (sliced, K, ans); buffer operations -> (None, None, ans)"""
+    ans, st = _split_stats(step)
+    parts = ans.split(" ")
+    if len(parts) >= 3 and parts[1].startswith("key="):
+        return parts[0], parts[1][4:], " ".join(parts[2:]), st
+    return None, None, ans, st
+
+
+def _pk_oracle(case, ist, sst, hist):
+    """implementation against the wire specification (key, answer, number of open reassemblies) and against the labels
+    of the generator (same label <=> same IpFragId; 'u' <=> passes through)"""
+    ops = case.split()[1:]
+    if len(ops) != len(ist) or len(sst) != len(ist):
+        return 0, "%d operations, %d answers, %d Spec answers" % (len(ops), len(ist), len(sst))
+    by_label = {}
+    ids = {}
+    for j, (op, a, b) in enumerate(zip(ops, ist, sst)):
+        sl, key, ans, st = _pk_parse(a)
+        if sl is None:
+            continue
+        b, _, bact = b.partition(" act=")
+        bparts = b.split(" ", 1)
+        skey, sans = bparts[0][4:], bparts[1]
+        hist["pk_frames"] += 1
+        if sl == "unsl":
+            hist["pk_unsliced"] += 1
+        if key != skey:
+            return j, "key read by the crate '%s', wire key '%s'" % (key, skey)
+        if ans != sans:
+            return j, "answer '%s', the Spec on the wire fragments gives '%s'" % (ans[:120], sans[:120])
+        if st is not None and bact and st[0] != int(bact):
+            return j, "%d open reassemblies, the Spec has %d" % (st[0], int(bact))
+        label = op.split(":")[1]
+        if key == "-":
+            hist["pk_passthrough"] += 1
+        else:
+            hist["pk_fragments"] += 1
+            hist["pk_v%s" % key[0]] += 1
+        if label == "x":
+            continue
+        if label == "u":
+            if key != "-" or ans != "none":
+                return j, "an unfragmented packet got key '%s' answer '%s'" % (key, ans[:80])
+            continue
+        if key == "-":
+            return j, "a fragment of stream %s got no key" % label
+        idpart = key.split(":", 1)[0]
+        if label in by_label and by_label[label] != idpart:
+            return j, "two frames of the same datagram (label %s) got ids '%s' and '%s'" % (label, by_label[label], idpart)
+        if idpart in ids and ids[idpart] != label:
+            return j, "frames of two datagrams that differ in a key field (labels %s, %s) got the same id '%s'" % (ids[idpart], label, idpart)
+        by_label[label] = idpart
+        ids[idpart] = label
+    hist["pk_streams_max"] = max(hist["pk_streams_max"], len(by_label))
+    return None
+# --- END extend-c11b (comparison) ------------------------------------------------------------------------------
+
+
 def compare(ctx, cases, impl, model_lines):
     corr, orc = [], []
     hist = {"buf": 0, "pool": 0, "steps<=4": 0, "steps<=8": 0, "steps>8": 0, "completions": 0, "err:toobig": 0,
             "err:unaligned": 0, "err:conflict": 0, "late_end_reject_histories": 0, "late_end_rejects": 0,
             "final_fragment_at_stored_maximum_accepted": 0, "spec_evaluated": 0, "ret1": 0, "retain": 0,
             "max_data_len": 0, "stats_checked": 0, "retain_evictions": 0, "failing_first_fragment": 0, "foreign_return": 0,
-            "late_fragment_after_eviction": 0, "stats_unobserved_lines": 0}
+            "late_fragment_after_eviction": 0, "stats_unobserved_lines": 0,
+            "pk": 0, "pk_frames": 0, "pk_unsliced": 0, "pk_passthrough": 0, "pk_fragments": 0, "pk_v4": 0, "pk_v6": 0,
+            "pk_streams_max": 0}
     seen = set()
     nontriv = 0
     for i, c in enumerate(cases):
@@ -697,6 +951,26 @@ def compare(ctx, cases, impl, model_lines):
             ist = _steps(il)
             if il.startswith("PANIC") or il.startswith("CRASH") or il == "NOT-RUN":
                 orc.append((i, "%s: %s" % (prof, il[:200]), None))
+                continue
+            if kind == "pk":
+                # extend-c11b: the packet step against the wire specification and the generator's labels
+                if first:
+                    first = False
+                    n = len(ist)
+                    hist["steps<=4" if n <= 4 else ("steps<=8" if n <= 8 else "steps>8")] += 1
+                    done = sum(1 for x in ist if " done:" in x)
+                    hist["completions"] += done
+                    if c not in seen:
+                        seen.add(c)
+                        if n >= 3 and done:
+                            nontriv += 1
+                    ph = hist
+                else:
+                    ph = dict.fromkeys(hist, 0)
+                if s is not None:
+                    bad = _pk_oracle(c, ist, _steps(s), ph)
+                    if bad is not None:
+                        orc.append((i, "%s: operation %d: %s" % (prof, bad[0], bad[1]), None))
                 continue
             if kind == "pool":
                 # the property's own bookkeeping against the numbers of the hook (every profile)
